@@ -39,7 +39,9 @@ GoodClasses == {"lower", "upper", "digit", "dot", "dash", "underscore"}
 \* allowed in a field value but not a challenge character; the named single characters are the
 \* ASCII neighbours of the good ranges ('@' 'A'..'Z' '[', '`' 'a'..'z' '{', '/' '0'..'9' ':', ',' '-' '.' '/')
 BadClasses  == {"space", "tab", "at", "lbracket", "backtick", "lbrace", "slash", "colon", "comma", "plus",
-                "tilde", "bang", "high80", "highff"}
+                "tilde", "bang", "high80", "highff",
+                "punct",      \* any other printable ASCII character that is not a challenge character
+                "high"}       \* any byte 0x81..0xFE
 CtlClasses  == {"ctl01", "del7f"}          \* not allowed in a field value at all
 Ows         == {"space", "tab"}
 MixedSeq    == <<"lower", "digit", "upper", "dot", "dash", "underscore">>
